@@ -324,10 +324,14 @@ class Result:
         self.solver_s = 0.0
         self.violations = []
         self.executed = set()
+        self.samples_run = 0
+        self.samples_failed = 0
+        self.sample_errors = []
 
     def to_json(self):
         return {"obligations": self.obligations, "paths": self.paths, "untranslatable": self.untranslatable,
-                "executed": sorted(self.executed),
+                "executed": sorted(self.executed), "samples_run": self.samples_run, "samples_failed": self.samples_failed,
+                "sample_errors": self.sample_errors[:3],
                 "errors": self.errors, "stubs": sorted(self.stubs), "solver_s": self.solver_s,
                 "violations": self.violations}
 
@@ -501,14 +505,15 @@ def model_values(model, symbols):
     return out
 
 
-def replay_concrete(c, cfg, model):
+def replay_concrete(c, cfg, model, use_known=False):
     """Run the *real* function on the inputs of `model` and evaluate every clause concretely.
-    Returns dict(failed=[clause names], outcome=..., inexact=[...])"""
+    Returns dict(failed=[clause names], outcome=..., inexact=[...]); with use_known, failures inside a known
+    region of the contract are reported under `known` instead."""
     b = ConcB(cfg, model)
     try:
         inp = c.inputs(b)
     except PreconditionFalse:
-        return {"failed": [], "outcome": "precondition-false", "inexact": b.inexact}
+        return {"failed": [], "known": [], "outcome": "precondition-false", "inexact": b.inexact}
     a = NS(inp)
     old = NS(_safe_deepcopy(inp))
     for k, v in cfg.items():
@@ -558,7 +563,26 @@ def replay_concrete(c, cfg, model):
                     break
             if not matched and not (c.allow_raise and isinstance(e, tuple(c.allow_raise))):
                 failed.append(("no-unexpected-exception", f"{type(e).__name__}:{str(e)[:80]}"))
-    return {"failed": failed, "outcome": (outcome[0], _describe(outcome[1])), "inexact": b.inexact, "detail": detail}
+    known_hits = []
+    if use_known and failed and c.known:
+        keep = []
+        for kind, name in failed:
+            key = name if kind == "ensures" else ("raise:" + name.split(":")[0] if kind == "no-unexpected-exception" else
+                                                  ("raise:" + type(outcome[1]).__name__ if kind.startswith("raises-") and outcome[0] == "raise" else name))
+            hit = None
+            for fid, reg in c.known.get(key, []):
+                try:
+                    if bool(reg(old)):
+                        hit = fid
+                        break
+                except Exception:
+                    pass
+            if hit:
+                known_hits.append(hit)
+            else:
+                keep.append((kind, name))
+        failed = keep
+    return {"failed": failed, "known": known_hits, "outcome": (outcome[0], _describe(outcome[1])), "inexact": b.inexact, "detail": detail}
 
 
 def _safe_deepcopy(inp):
@@ -604,7 +628,83 @@ def model_from_json(m):
     return out
 
 
-def verify(cname, cfg, timeout_ms=20000, seed=0, repo_src=None):
+def sample_models(I, c, cfg, n, seed):
+    """n models of the contract's requires (the path condition after building the inputs), spread by pinning random
+    subsets of the symbols to random small dyadic values."""
+    import random
+    rnd = random.Random(seed * 7919 + hash(cfg_id(cfg)) % 100003)
+    I.ctx = Ctx([])
+    I.extent_cap = c.extent_cap
+    I.reset_state()
+    b = SymB(I, cfg)
+    try:
+        c.inputs(b)
+    except Exception:
+        return [], b
+    base = list(I.ctx.pc)
+    models = []
+    syms = list(b.symbols.items())
+    for k in range(n):
+        s = z3.Solver()
+        s.set("timeout", 3000)
+        for h in base:
+            s.add(h)
+        pins = []
+        for name, (sort, t) in syms:
+            if sort == "real":
+                kk = z3.Int(name + "$k")
+                s.add(t * 8 == z3.ToReal(kk), kk >= -64, kk <= 64)
+                if rnd.random() < 0.6:
+                    pins.append(t == z3.RealVal(rnd.randint(-16, 16)) / 4)
+            elif sort == "int":
+                s.add(t >= -6, t <= 6)
+                if rnd.random() < 0.6:
+                    pins.append(t == rnd.randint(-3, 4))
+            else:
+                if rnd.random() < 0.6:
+                    pins.append(t == bool(rnd.getrandbits(1)))
+        rnd.shuffle(pins)
+        while True:
+            r = s.check(*pins)
+            if r == z3.sat:
+                models.append(model_values(s.model(), b.symbols))
+                break
+            if not pins:
+                break
+            core = s.unsat_core() if r == z3.unsat else []
+            drop = [p for p in pins if any(z3.eq(p, q) for q in core)] or pins[: max(1, len(pins) // 2)]
+            pins = [p for p in pins if not any(z3.eq(p, q) for q in drop)]
+    return models, b
+
+
+def cross_check(I, c, cfg, n, seed, res):
+    """CPython cross-check / bounded stand-in: run the REAL function on sampled concrete inputs and evaluate every
+    clause of the contract concretely.  Never counted as proved."""
+    models, b = sample_models(I, c, cfg, n, seed)
+    ran = failed = 0
+    for mv in models:
+        try:
+            rp = replay_concrete(c, cfg, mv, use_known=True)
+        except Exception as e:
+            res.sample_errors.append(f"{type(e).__name__}: {e}")
+            continue
+        if rp["outcome"] == "precondition-false":
+            continue
+        ran += 1
+        if rp["failed"]:
+            failed += 1
+            kind, name = rp["failed"][0]
+            res.obligations.append({"name": f"{c.name}#sample:{name}@{cfg_id(cfg)}/real-code", "kind": "sample", "clause": name,
+                                    "config": cfg_id(cfg), "path": "real-code", "status": "refuted", "ms": 0, "hyps": 0, "mode": "concrete",
+                                    "bounded": True, "model": jsonable_model(mv), "replayed": True,
+                                    "replay": {"failed": [list(x) for x in rp["failed"]], "outcome": rp["outcome"], "inexact": [], "detail": rp.get("detail", {})}})
+            if failed >= 2:
+                break
+    res.samples_run += ran
+    res.samples_failed += failed
+
+
+def verify(cname, cfg, timeout_ms=20000, seed=0, repo_src=None, samples=0):
     """Verify contract `cname` under configuration `cfg`.  Returns Result (JSON-able)."""
     c = REGISTRY[cname]
     res = Result()
@@ -684,4 +784,10 @@ def verify(cname, cfg, timeout_ms=20000, seed=0, repo_src=None):
                                      "inexact": rp.get("inexact", []), "detail": rp.get("detail", {})}
                     rec["replayed"] = any(x[1] == name or x[0] == kind for x in rp["failed"]) or bool(rp["failed"])
             res.obligations.append(rec)
+    n = samples if not res.untranslatable else max(samples, 40)
+    if n:
+        try:
+            cross_check(I, c, cfg, n, seed, res)
+        except Exception as e:
+            res.sample_errors.append(f"cross-check crashed: {type(e).__name__}: {e}")
     return res
